@@ -41,8 +41,8 @@ class C01(Prop):
     ]
     WORKERS = 10
     MODEL_NEEDS_IMPL = True  # ownership traces: mutation steps send the mutated object's observed state
-    LEVEL_TEXT = 'Lean 4 theorems over the codec, store and heap models: sqlite_roundtrip / peewee_duration_roundtrip (binary64 on Rat, for every instant up to 2106 and every duration up to 2^43 us), insert_assigns_fresh_id_B, get_after_insert_B, bulk_insert_B (listing and lookup return the inserted event), store_owns_copy / separated / api_preserves_separation (no client mutation changes an observation, for every reachable heap state); the models are compared with the three real backends on every run (codec cases incl. the 2038-2041 / 2^51 us window, id histories with deletions, ownership traces against the heap model)'
-    LEVEL_NOTE = "trusts: Lean kernel + 3 standard axioms; binary64 model vs hardware (compared every run by C13's fl stream); JSON text and peewee timestamp-text round trips; nested data below the data dict is one heap cell; hypotheses: 0 <= T, 1000 | T, T+D < 2^32*10^6 us, D <= 2^43 us"
+    LEVEL_TEXT = 'Lean 4 theorems over the codec, store and heap models: sqlite_roundtrip / peewee_duration_roundtrip (binary64 on Rat, for every instant from 1833 to 2106 and every duration up to 2^43 us), insert_assigns_fresh_id_B, get_after_insert_B, bulk_insert_B (listing and lookup return the inserted event), store_owns_copy / separated / api_preserves_separation (no client mutation changes an observation, for every reachable heap state); the models are compared with the three real backends on every run (codec cases incl. the 2038-2041 / 2^51 us window, id histories with deletions, ownership traces against the heap model)'
+    LEVEL_NOTE = "trusts: Lean kernel + 3 standard axioms; binary64 model vs hardware (compared every run by C13's fl stream); JSON text and peewee timestamp-text round trips; nested data below the data dict is one heap cell; hypotheses: -2^32*10^6 us < T (1833; covers every 1970 wall-clock date at any offset), 1000 | T, T+D < 2^32*10^6 us, D <= 2^43 us"
     TECHNIQUE = "Lean 4 proof (float error bounds on Rat, heap-separation invariant) + differential correspondence"
     RULE = (
         "codec: events with instants uniform over 1970..2100, in the 2038-2041 / 2^51 µs windows, at ms edges, offsets "
@@ -71,6 +71,12 @@ class C01(Prop):
                 t = T0 + rng.randrange(0, 10**6) * 1000
             return min(max(t, 0), Y2100 - 1000)
 
+        def early_1970():
+            """a wall-clock instant in the first day of 1970 at a positive UTC offset: the UTC instant precedes the epoch"""
+            off = rng.choice([60, 345, 765, 840])
+            local = rng.randrange(0, off * 60 * 1000) * 1000  # wall-clock µs since 1970-01-01T00:00 local
+            return local - off * 60 * 10**6, off
+
         def duration(t):
             k = rng.random()
             if k < 0.15:
@@ -94,6 +100,16 @@ class C01(Prop):
             case = {"k": "codec", "bulk": rng.random() < 0.5, "events": evs, "off": rng.choice([0, 0, 60, -300, 345, 840, -840, 765])}
             for be in storelib.BACKENDS:
                 out.append(("codec", {**case, "backend": be}))
+        # wall-clock dates of 1970 east of Greenwich whose UTC instant precedes the epoch (negative instants)
+        for _ in range(ctx.pick(60, 1500)):
+            t, off = early_1970()
+            evs = [[None, t, rng.choice([0, 1, 1500, 10**6, rng.randrange(0, 3 * 86_400 * 10**6)]), rng.choice(DATAS)]]
+            if rng.random() < 0.4:
+                t2, _ = early_1970()
+                evs.append([None, t2, rng.choice([0, 999, 60 * 10**6]), rng.choice(DATAS)])
+            case = {"k": "codec", "bulk": rng.random() < 0.5, "events": evs, "off": off}
+            for be in storelib.BACKENDS:
+                out.append(("codec-before-epoch", {**case, "backend": be}))
         # data values that Python's == cannot tell apart (1, True, 1.0; 0, False) next to each other in one call
         JT = storegen.LABELS_JSON_TYPES
         for _ in range(ctx.pick(40, 600)):
